@@ -193,6 +193,7 @@ func cmdCheck(args []string) {
 	if *tier == "thorough" {
 		timeout = 300
 	}
+	timeout = envInt("GOV_OBL_SECONDS", timeout)
 	run := eng.RunProperty(*prop, *tier, seed, timeout)
 	run.wall = time.Since(t0)
 	code := run.Report(eng, *writeBaseline, *verbose)
@@ -292,6 +293,35 @@ func (e *Engine) RunProperty(id, tier string, seed, timeout int) *CheckRun {
 		}
 	}
 	ds := DischargeAll(real, timeout, seed, 10, os.Getenv("GOV_DUMP"))
+	// An obligation of the baseline that merely ran out of solver time is re-tried alone with four times
+	// the budget before it can be reported: on a slower or busier host a proof that takes 15 s here must not
+	// turn into an alarm. Re-trying stops at the first obligation that still fails (the tree is then
+	// reported as violating anyway, and a changed tree should not cost hours of solver time).
+	if base := loadBaseline()[id]; base != nil {
+		for _, d := range ds {
+			if d.Res.Status != "timeout" && d.Res.Status != "unknown" {
+				continue
+			}
+			if !base[d.Obl.Name] {
+				continue
+			}
+			script, q, _ := d.Obl.Script("", nil)
+			if len(script) > 4<<20 {
+				continue
+			}
+			r := Solve(script, q, 4*timeout, seed+1, false)
+			r.Ms += d.Res.Ms
+			if r.Status == "unsat" {
+				fmt.Fprintf(os.Stderr, "note: %s needed the extended solver budget (%d ms)\n", d.Obl.Name, r.Ms)
+				d.Res = r
+				continue
+			}
+			if r.Status == "sat" {
+				d.Res = r
+			}
+			break
+		}
+	}
 	byName := map[string]*OblResult{}
 	var order []string
 	get := func(o *Obligation) *OblResult {
